@@ -820,6 +820,7 @@ pub fn main(env: &Env) -> i32 {
             "mux_raw" => common::replay_case::<MuxRawCase>(case, check_mux_raw),
             "rpc_garbage" => common::replay_case::<RpcCase>(case, check_rpc),
             "live_node" => common::replay_case::<LiveCase>(case, check_live),
+            "mux_flood" => common::replay_case::<crate::c14::FloodCase>(case, crate::c14::check_flood),
             p => Err(format!("unknown part {p}")),
         };
         return env.finish_replay(&path, r);
@@ -887,6 +888,15 @@ pub fn main(env: &Env) -> i32 {
         PartOpts { cases: env.tier.pick(2_500, 60_000), max_shrink_iters: 400, samples: 2 },
         || Choices::strategy(400).prop_map(|mut ch| gen_rpc(&mut ch)),
         check_rpc,
+    ));
+    parts.push(run_proptest(
+        env,
+        "mux_flood",
+        "L4, limits: the non-cooperative peer of C14's flood part against the real multiplexer - DATA floods of 4-12 times the read buffer on streams the application accepted but does not read (or never accepts), control-frame floods (CLOSE frames on open streams), and floods during which the application consumes a few unaligned bytes at a time; \
+         oracle (the 'never buffers more than its configured limits' clause of C10): bytes pulled from the transport stay within read_buffer_size + 4 * (read_frame_count + 1), frames held within read_frame_count + 1, payload pulled within consumed + read_buffer_size; Mux::run keeps serving. Non-trivial as in C14",
+        PartOpts { cases: env.tier.pick(400, 10_000), max_shrink_iters: 200, samples: 2 },
+        || Choices::strategy(300).prop_map(|mut ch| crate::c14::gen_flood(&mut ch)),
+        crate::c14::check_flood,
     ));
     parts.push(run_proptest(
         env,
